@@ -51,9 +51,14 @@ func semaAcquire(addr *uint32) {
 		st.mu.Lock()
 		for {
 			v = latomic.LoadUint32(addr)
-			if v != 0 && latomic.CompareAndSwapUint32(addr, v, v-1) {
-				st.mu.Unlock()
-				return
+			if v != 0 {
+				if latomic.CompareAndSwapUint32(addr, v, v-1) {
+					st.mu.Unlock()
+					return
+				}
+				// lost the race for this unit, but the count may still be
+				// positive: look again instead of sleeping with no release pending
+				continue
 			}
 			st.waiters++
 			st.cond.Wait(&st.mu)
